@@ -1002,6 +1002,9 @@ def _inline_helpers(fn, class_helpers, module_helpers):
     return changed
 
 
+ONLY_INLINE = [False]   # set by normalize_module(tree, only_inline=True): the 'inlined' form = tree as written + helpers inlined
+
+
 def normalize_function(fn, max_rounds=40, class_helpers=None, module_helpers=None):
     """normalise one function definition in place (nested functions are normalised first)."""
     class_helpers = class_helpers or {}
@@ -1016,6 +1019,10 @@ def normalize_function(fn, max_rounds=40, class_helpers=None, module_helpers=Non
                         normalize_function(s2, max_rounds)
     for _ in range(max_rounds):
         ch = _inline_helpers(fn, class_helpers, module_helpers)
+        if ONLY_INLINE[0]:
+            if not ch:
+                break
+            continue
         for block in all_blocks(fn):
             ch |= _split_tuple_assign(block)
         simp = _Simplify()
@@ -1037,8 +1044,16 @@ def _private(name):
     return name.startswith('_') and not name.startswith('__') and name not in KEEP_HELPERS
 
 
-def normalize_module(tree):
-    """returns a normalised deep copy of a module tree."""
+def normalize_module(tree, only_inline=False):
+    """returns a normalised deep copy of a module tree (only_inline: nothing but the inlining of private helpers)."""
+    ONLY_INLINE[0] = bool(only_inline)
+    try:
+        return _normalize_module(tree)
+    finally:
+        ONLY_INLINE[0] = False
+
+
+def _normalize_module(tree):
     new = clone(tree)
     _MAPPINGLIKE.clear()
     _MAPPINGLIKE.update(mappinglike_paths(tree))
